@@ -31,6 +31,7 @@ func init() {
 		// end-of-block processing is not halted by what ordinary transactions can leave behind (the same scenario as C07's)
 		monModuleAccountRecipient(s, "mon.c17.endblock-not-halted")
 		monConcurrentValidation(s, "c17")
+		monC17DidHandlerGrid(s)
 		c, err := NewChain(memDB(), tmpHome(), nil, 0, nil)
 		if err != nil {
 			panic(err)
